@@ -525,6 +525,18 @@ unsafe fn snapshot() {
     snapshot_as("C snapshot")
 }
 
+/// Called by the engines right after the library's launch call returns.  In the process that made the call this is nothing;
+/// in a forked child that has *returned* from the launch call instead of ending in exec or _exit (a second copy of the caller,
+/// holding every descriptor the caller had at fork time) it records the copy's descriptor table and ends the copy.
+pub fn escape_guard() {
+    unsafe {
+        if ST.in_child {
+            snapshot_as("C escaped");
+            libc::syscall(libc::SYS_exit_group, 98 as c_long);
+        }
+    }
+}
+
 unsafe fn snapshot_as(label: &str) {
     lock();
     let mut w = ShWriter;
